@@ -58,7 +58,8 @@ def case_strategy(tier):
             )
         lagsets = [(1,), (2,), (3,), (1, 2), (1, 3), (2, 3), (1, 2, 3)]
         return dict(
-            kind=kind, sem=sem, duration=R(1, maxdur), lags=draw(st.sampled_from(lagsets)),
+            # every duration 1..13 in both tiers: two full periods of the lag sets with lcm 6 need 12 steps
+            kind=kind, sem=sem, duration=R(1, 13), lags=draw(st.sampled_from(lagsets)),
             nvars=R(1, 2), size=R(1, 2), periods=R(1, 3), a=R(0, 9973), b=R(1, 97),
             glob=draw(st.booleans()),
         )
@@ -144,7 +145,7 @@ def oracle_fold(case, full, rval):
 class C10(Prop):
     id = "C10"
     rule = (
-        "case = (semiring, duration 1-8 quick / 1-12 thorough, 1-3 prev->curr pairs with independently shuffled names and sizes 1-3, "
+        "case = (semiring, duration 1-8 quick / 1-12 thorough (lagged models: 1-13 in both tiers), 1-3 prev->curr pairs with independently shuffled names and sizes 1-3, "
         "0-2 batch inputs, transition depending or not on time/batch, optional free real parameter, algorithm in {sequential_sum_product, "
         "naive, mixed with every num_segments, MarkovProduct eager, MarkovProduct lazy+reinterpret}); oracle = numpy left fold in time "
         "order; lagged models: sarkka_bilmes_product vs naive_sarkka_bilmes_product for lag sets over {1,2,3}, every duration and period "
@@ -299,6 +300,8 @@ class C10(Prop):
             got = sarkka_bilmes_product(S, P, trans, time, gv, num_periods=case["periods"])
         except (AssertionError, NotImplementedError) as e:
             raise Decline("raised:" + innermost_funsor_frame(e))
+        except (MemoryError, RecursionError):
+            raise
         except Exception as e:
             raise Violation("sarkka-raised-where-naive-returns:" + type(e).__name__, f"{e!r:.200}: {self.describe(case)}")
         if set(got.inputs) != set(want.inputs):
